@@ -2,11 +2,12 @@ package checks
 
 import (
 	"encoding/json"
+	"fmt"
 	"io"
 	"os"
 	"os/exec"
-	"fmt"
 	"strings"
+	"sync"
 	"time"
 
 	"connectrpc.com/connect"
@@ -70,6 +71,7 @@ func sScenarios() []*sScenario {
 				c := sw.clients[0]
 				sw.edit(c)
 				pb, _ := converter.ToChangePack(c.doc.CreateChangePack())
+				var cmu sync.Mutex
 				dup := func() error {
 					// the identical request, sent twice (client retry while the first is still in flight)
 					res, err := sw.stub.PushPullChanges(sw.ctx, newPPReq(c, pb))
@@ -80,7 +82,9 @@ func sScenarios() []*sScenario {
 					if err != nil {
 						return err
 					}
+					cmu.Lock()
 					c.cps = append(c.cps, p.Checkpoint.ServerSeq)
+					cmu.Unlock()
 					return nil
 				}
 				return []sThread{{"pushpull(c0)#1", dup}, {"pushpull(c0)#2", dup}}
@@ -397,6 +401,12 @@ func racePostRun(res *Result, tier string) {
 			rep = rep[:j]
 		}
 		site := raceSite(rep)
+		if site == "unknown" {
+			// neither access is in the code under test: a race inside the harness
+			// bodies themselves is not a finding about the pipeline
+			res.Count("race_reports_harness_only", 1)
+			continue
+		}
 		if seen[site] {
 			continue
 		}
